@@ -52,7 +52,17 @@ pub fn carve_known(r: &RValue, open: &[String], hit: &mut Vec<String>) -> RValue
     let rec = |x: &RValue, hit: &mut Vec<String>| carve_known(x, open, hit);
     match r {
         RValue::List(v) => RValue::List(v.iter().map(|x| rec(x, hit)).collect()),
-        RValue::Map(v) => RValue::Map(v.iter().map(|(k, x)| (rec(k, hit), rec(x, hit))).collect()),
+        RValue::Map(v) => {
+            // carving may make two keys equal; keep the first (a map has distinct keys)
+            let mut out: Vec<(RValue, RValue)> = Vec::new();
+            for (k, x) in v {
+                let k2 = rec(k, hit);
+                if !out.iter().any(|(e, _)| e == &k2) {
+                    out.push((k2, rec(x, hit)));
+                }
+            }
+            RValue::Map(out)
+        }
         RValue::Described(d, v) => RValue::described(rec(d, hit), rec(v, hit)),
         RValue::Array(v) => {
             let elems: Vec<RValue> = v.iter().map(|x| rec(x, hit)).collect();
@@ -66,6 +76,10 @@ pub fn carve_known(r: &RValue, open: &[String], hit: &mut Vec<String>) -> RValue
                 note(hit, "KF-codec-array-of-null");
                 return RValue::List(elems);
             }
+            if elems.is_empty() && is_open("KF-codec-empty-array-no-constructor") {
+                note(hit, "KF-codec-empty-array-no-constructor");
+                return RValue::Null;
+            }
             RValue::Array(elems)
         }
         other => other.clone(),
@@ -76,4 +90,10 @@ fn note(hit: &mut Vec<String>, id: &str) {
     if !hit.iter().any(|h| h == id) {
         hit.push(id.to_string());
     }
+}
+
+/// open finding ids relevant for a direction: findings that only concern what the encoder
+/// emits are not carved out of decoder-side ("in") checks
+pub fn open_for_decoder_side(open: &[String]) -> Vec<String> {
+    open.iter().filter(|o| o.as_str() != "KF-codec-empty-array-no-constructor").cloned().collect()
 }
